@@ -44,6 +44,19 @@ CHECKS = {
              "(CrashMid) but not reproducible by injection. Durability (fsync) is outside the property.",
         technique="TLA+ model checking (TLC) of AtomicWrite.tla + fault/crash scenario replay via strace injection + syscall-trace validation (FsTrace.tla)",
         design="§6 C14"),
+    "C13": dict(
+        level="model_checking",
+        text="TLC explores spec/Isolation.tla (2-3 concurrent calls x steps, preemption-bounded scheduler, taint through shared cells): "
+             "Isolated holds for the as-is sharing structure under every schedule and fails as soon as one step touches a shared "
+             "mutable cell. Every complete schedule of the model is executed against the real reformat_text under a cooperative "
+             "deterministic scheduler (one runnable thread, switches only at call events of flowmark/marko code) for pairs/triples of "
+             "leak-sensitive (document, options) calls, plus seeded fine-grained schedules and single-process histories (ordered "
+             "pairs/triples of calls); spec/IsoTrace.tla validates that the executed schedule is a behaviour of the model and that every "
+             "result equals the result of the same call in a freshly spawned interpreter.",
+        note="Trusted: the scheduler (switch points = Python call events of flowmark/marko files; no preemption inside C code), "
+             "spawned-interpreter solo oracle. Schedules are bounded (<= 3 preemptions at segment granularity) plus random fine-grained ones.",
+        technique="TLA+ model checking (TLC) of Isolation.tla + schedule replay under a deterministic scheduler + trace validation (IsoTrace.tla)",
+        design="§6 C13"),
 }
 
 NOT_YET = "check not built yet in this phase (planned, see DESIGN.md §6)"
